@@ -195,7 +195,13 @@ def c06_spec(draw, max_glyphs=9, max_passes=3):
         recycle = dict(pre=0, maxloop=200, reverse=False, rules=[
             dict(items=[g - 1], constraint=None, adjust=0, actions=[dict(op='delete', attrs=[])])] + ([] if h == g else [
             dict(items=[h - 1], constraint=None, adjust=0, actions=[dict(op='glyph', insert=True, cls=j - 1, assoc=[0], attrs=[]), dict(op='keep', attrs=[])])]))
-        passes[nsub:nsub] = [mark, recycle]
+        if draw(st.booleans()):
+            passes[nsub:nsub] = [mark, recycle]
+        else:
+            # ... or g is duplicated over its left neighbour h by PUT_COPY: the copy carries every user attribute of g
+            dup = dict(pre=0, maxloop=200, reverse=False, rules=[dict(items=[h - 1, g - 1], constraint=None, adjust=0,
+                       actions=[dict(op='copy', ref=1, attrs=[]), dict(op='keep', attrs=[])])])
+            passes[nsub:nsub] = [mark, dup]
         nsub += 2
     spec = dict(upem=1000, silf_version=draw(st.sampled_from([0x00020000, 0x00030000, 0x00040000, 0x00050000])),
                 glat_version=draw(st.sampled_from([1, 2, 3])), gloc_long=draw(st.booleans()),
